@@ -76,6 +76,9 @@ def _elem(draw, idx, depth, tier):
                 "new": ["str", f"q{idx}"] if op == "changed" else ["str", "p" + s]}
     if kind == "snap":
         old = draw(st.one_of(st.integers(0, 20).map(lambda i: ["int", i]), st.just(["list", [["int", 1], ["int", 2]]])))
+        if draw(st.integers(0, 3)) == 0 and op != "deleted":
+            # an inner snapshot that is still empty: it accepts (and has to record) whatever is observed
+            return {"type": "snap", "old": old, "text": "snapshot()", "op": "same", "new": old, "empty": True}
         return {"type": "snap", "old": old, "text": f"snapshot({gv.natural(old)})", "op": op,
                 "new": fresh if op == "changed" else old}
     cls = draw(st.sampled_from(["IsInt", "IsStr", "AnyThing"]))
